@@ -149,6 +149,7 @@ type NegScript struct {
 	DelayMs         int      `json:"reply_delay_ms"`
 	StreamID        string   `json:"stream_id"`
 	AutoAckR        bool     `json:"auto_ack"` // answer <r/> like a real server
+	ProceedTrailer  string   `json:"clear_text_injected_behind_proceed,omitempty"`
 	// the k-th write of the client after the server has sent <resumed/> fails (the connection breaks while
 	// the held stanzas are being sent again); 0: none
 	FailWriteAfterResumed int `json:"client_write_fails_after_resumed,omitempty"`
@@ -550,7 +551,9 @@ func (sc *SrvConn) handle(it *Item) {
 		sc.delay()
 		switch scr.TLSReply {
 		case TLSProceed:
-			sc.Send("<proceed xmlns='" + nsTLS + "'/>")
+			// (ProceedTrailer: clear text right behind <proceed/>, in the same write - what an attacker in
+			// the path can inject before the TLS handshake; none of it was said by the authenticated server)
+			sc.Send("<proceed xmlns='" + nsTLS + "'/>" + scr.ProceedTrailer)
 			sc.startTLS()
 		case TLSFailure:
 			sc.Send("<failure xmlns='" + nsTLS + "'/></stream:stream>")
